@@ -167,6 +167,12 @@ Inductive location :=
 Definition PrefixedLike (s : list N) : Prop :=
   exists c r sg rest, radix_letter c = Some r /\ s = c :: sg :: rest /\ (sg = 43 \/ sg = 45).
 
+(** Likewise a token that starts with a radix letter followed by digits that already exceed
+    2^31 - 1 is rejected as too large an integer, whatever follows (`x80000000g`). *)
+Definition TooLargeLike (s : list N) : Prop :=
+  exists c r ds rest m, radix_letter c = Some r /\ s = c :: ds ++ rest /\
+    digits_value r ds 0 = Some m /\ (m > i32_max)%Z.
+
 (** An `Address+` (help.txt, final note): an absolute address, a label with optional offset, an
     offset from the program counter.  The three forms overlap in the text of the note (`x3010` is
     also a well-formed label name, `r0` too): a token that is an integer is an address, and a
@@ -175,7 +181,7 @@ Inductive MemLocSyn : list N -> memloc -> Prop :=
 | ML_pc : forall s v, PcOffSyn s v -> MemLocSyn s (MPcOffset v)
 | ML_addr : forall s v, IntSyn s v -> fits_u16 v -> MemLocSyn s (MAddress v)
 | ML_label : forall s name off,
-    LabelSyn s name off -> (forall v, ~ IntSyn s v) -> ~ PrefixedLike s ->
+    LabelSyn s name off -> (forall v, ~ IntSyn s v) -> ~ PrefixedLike s -> ~ TooLargeLike s ->
     (forall r, ~ RegSyn name r) ->
     MemLocSyn s (MLabel name off).
 
